@@ -8,7 +8,7 @@ from impl import trees, transform, quiet, clone, tag_uids
 from props.c04 import HEADS
 
 ID = "C14"
-MODULE = ['TT.Props.C14', 'TT.Props.C14More']
+MODULE = ['TT.Props.C14', 'TT.Props.C14More', 'TT.Props.C14More2']
 RULE = ("random well-formed head-marked trees of arity 1..6 (head first/last/middle, discontinuous nodes), "
         "bare_bin_labels on/off, decorated parent labels; trees with unary chains of length 1..4 at the root, in the "
         "middle and above tokens (labels without '+', not starting with '@'); nodes with >2 children and no head mark "
